@@ -2,7 +2,8 @@
    Print Assumptions only. The pins in tools/pins/C20.v re-check the statements. *)
 From Coq Require Import List NArith Bool.
 From V.gen Require Consts.
-From V.C20 Require Import Model Proofs.
+From V.common Require Protobuf.
+From V.C20 Require Import Model Proofs Bytes.
 Import ListNotations.
 Open Scope N_scope.
 
@@ -86,41 +87,51 @@ Print Assumptions C20_honest_accepted.
 (* For every block type, size functions, limits and queue: the messages that send_response
    writes carry, concatenated, exactly the blocks that fit a message, once and in order. *)
 Theorem C20_batches_partition :
-  forall (A : Type) (dlen elen : A -> N) (mb mm : N) (l : list A),
-    concat (sent_batches A dlen elen mb mm l) = filter (fits A dlen elen mb mm) l.
+  forall (A : Type) (dlen elen : A -> N) (mlen : N -> N) (mb mm : N),
+    (forall x y, x <= y -> mlen x <= mlen y) ->
+    forall l : list A,
+      concat (sent_batches A dlen elen mlen mb mm l) = filter (fits A dlen elen mlen mb mm) l.
 Proof. exact sent_partition. Qed.
 Print Assumptions C20_batches_partition.
 
 (* no message is empty, none exceeds the data limit or the message size limit *)
 Theorem C20_batches_bounds :
-  forall (A : Type) (dlen elen : A -> N) (mb mm : N) (l : list A),
-    Forall (fun b => b <> [] /\ sum (map dlen b) <= mb /\ message_len A elen b <= mm)
-           (sent_batches A dlen elen mb mm l).
+  forall (A : Type) (dlen elen : A -> N) (mlen : N -> N) (mb mm : N),
+    (forall x y, x <= y -> mlen x <= mlen y) ->
+    forall l : list A,
+      Forall (fun b => b <> [] /\ sum (map dlen b) <= mb /\ message_len A elen mlen b <= mm)
+             (sent_batches A dlen elen mlen mb mm l).
 Proof. exact sent_bounds. Qed.
 Print Assumptions C20_batches_bounds.
 
 (* the size check of send_response never has to drop a message *)
 Theorem C20_no_message_dropped :
-  forall (A : Type) (dlen elen : A -> N) (mb mm : N) (l : list A),
-    sent_batches A dlen elen mb mm l = all_batches A dlen elen mb mm l.
+  forall (A : Type) (dlen elen : A -> N) (mlen : N -> N) (mb mm : N),
+    (forall x y, x <= y -> mlen x <= mlen y) ->
+    forall l : list A,
+      sent_batches A dlen elen mlen mb mm l = all_batches A dlen elen mlen mb mm l.
 Proof. exact sent_is_all. Qed.
 Print Assumptions C20_no_message_dropped.
 
 (* the `while let` loop stops by itself after at most length+1 iterations *)
 Theorem C20_loop_terminates :
-  forall (A : Type) (dlen elen : A -> N) (mb mm : N) (l : list A) (n : nat),
-    (length l < n)%nat -> batches A dlen elen mb mm n l = all_batches A dlen elen mb mm l.
+  forall (A : Type) (dlen elen : A -> N) (mlen : N -> N) (mb mm : N),
+    (forall x y, x <= y -> mlen x <= mlen y) ->
+    forall (l : list A) (n : nat),
+      (length l < n)%nat -> batches A dlen elen mlen mb mm n l = all_batches A dlen elen mlen mb mm l.
 Proof. exact loop_terminates. Qed.
 Print Assumptions C20_loop_terminates.
 
 (* batching is greedy: a batch ends at the end of the queue or at a block that would break a limit *)
 Theorem C20_batch_maximal :
-  forall (A : Type) (dlen elen : A -> N) (mb mm : N) (l : list A) tot msg b r,
-    take_batch A dlen elen mb mm tot msg l = (b, r) ->
-    match r with
-    | [] => True
-    | a :: _ => mb < tot + sum (map dlen b) + dlen a \/ mm < msg + sum (map elen b) + elen a
-    end.
+  forall (A : Type) (dlen elen : A -> N) (mlen : N -> N) (mb mm : N),
+    (forall x y, x <= y -> mlen x <= mlen y) ->
+    forall (l : list A) tot acc b r,
+      take_batch A dlen elen mlen mb mm tot acc l = (b, r) ->
+      match r with
+      | [] => True
+      | a :: _ => mb < tot + sum (map dlen b) + dlen a \/ mm < mlen (acc + sum (map elen b) + elen a)
+      end.
 Proof. exact take_batch_maximal. Qed.
 Print Assumptions C20_batch_maximal.
 
@@ -137,9 +148,9 @@ Print Assumptions C20_default_partition.
 Theorem C20_default_bounds :
   forall l,
     Forall (fun b => b <> [] /\ sum (map sb_dlen b) <= Consts.BITSWAP_MAX_BATCH_SIZE /\
-                     message_len sblock sb_elen b <= Consts.BITSWAP_MAX_MESSAGE_SIZE)
+                     message_len sblock sb_elen blk_mlen b <= Consts.BITSWAP_MAX_MESSAGE_SIZE)
            (send_response_blocks Consts.BITSWAP_MAX_BATCH_SIZE Consts.BITSWAP_MAX_MESSAGE_SIZE l).
-Proof. exact (sent_bounds sblock sb_dlen sb_elen _ _). Qed.
+Proof. exact (sent_bounds sblock sb_dlen sb_elen blk_mlen _ _ blk_mlen_mono). Qed.
 Print Assumptions C20_default_bounds.
 
 Theorem C20_empty_message_const : EMPTY_MESSAGE_LEN = Consts.BITSWAP_EMPTY_MESSAGE_SIZE.
@@ -152,9 +163,9 @@ Print Assumptions C20_empty_message_const.
 Theorem C20_payload_bound_insufficient :
   forall mb mm, 10 <= mm ->
     exists l : list sblock,
-      Forall (fun b => fits sblock sb_dlen sb_elen mb mm b = true) l /\
+      Forall (fun b => fits sblock sb_dlen sb_elen blk_mlen mb mm b = true) l /\
       sum (map sb_dlen l) <= mb /\
-      mm < message_len sblock sb_elen l.
+      mm < message_len sblock sb_elen blk_mlen l.
 Proof. exact payload_bound_insufficient. Qed.
 Print Assumptions C20_payload_bound_insufficient.
 
@@ -164,15 +175,15 @@ Print Assumptions C20_payload_bound_insufficient.
    message, once and in order; none is empty or longer than the limit *)
 Theorem C20_presences_partition :
   forall (mm : N) (l : list spres),
-    concat (send_response_presences mm l) = filter (fits spres (fun _ => 0) sp_elen 0 mm) l.
-Proof. exact (sent_partition spres (fun _ => 0) sp_elen 0). Qed.
+    concat (send_response_presences mm l) = filter (fits spres (fun _ => 0) sp_elen blk_mlen 0 mm) l.
+Proof. exact (fun mm => sent_partition spres (fun _ => 0) sp_elen blk_mlen 0 mm blk_mlen_mono). Qed.
 Print Assumptions C20_presences_partition.
 
 Theorem C20_presences_bounds :
   forall (mm : N) (l : list spres),
-    Forall (fun b => b <> [] /\ sum (map (fun _ => 0) b) <= 0 /\ message_len spres sp_elen b <= mm)
+    Forall (fun b => b <> [] /\ sum (map (fun _ => 0) b) <= 0 /\ message_len spres sp_elen blk_mlen b <= mm)
            (send_response_presences mm l).
-Proof. exact (sent_bounds spres (fun _ => 0) sp_elen 0). Qed.
+Proof. exact (fun mm => sent_bounds spres (fun _ => 0) sp_elen blk_mlen 0 mm blk_mlen_mono). Qed.
 Print Assumptions C20_presences_bounds.
 
 (* with the shipped limit every presence (multihash of at most 64 bytes) is sent *)
@@ -187,8 +198,8 @@ Print Assumptions C20_default_presences_all_sent.
 Theorem C20_unsplit_presences_insufficient :
   forall mm, 42 <= mm ->
     exists l : list spres,
-      Forall (fun p => fits spres (fun _ => 0) sp_elen 0 mm p = true) l /\
-      mm < message_len spres sp_elen l.
+      Forall (fun p => fits spres (fun _ => 0) sp_elen blk_mlen 0 mm p = true) l /\
+      mm < message_len spres sp_elen blk_mlen l.
 Proof. exact unsplit_presences_insufficient. Qed.
 Print Assumptions C20_unsplit_presences_insufficient.
 
@@ -196,9 +207,9 @@ Print Assumptions C20_unsplit_presences_insufficient.
 Theorem C20_response_lossless :
   forall mb mm ps bs,
     flat_map omsg_presences (action_msgs mb mm (AResponse ps bs)) =
-      filter (fits spres (fun _ => 0) sp_elen 0 mm) ps /\
+      filter (fits spres (fun _ => 0) sp_elen blk_mlen 0 mm) ps /\
     flat_map omsg_blocks (action_msgs mb mm (AResponse ps bs)) =
-      filter (fits sblock sb_dlen sb_elen mb mm) bs.
+      filter (fits sblock sb_dlen sb_elen blk_mlen mb mm) bs.
 Proof. exact response_lossless. Qed.
 Print Assumptions C20_response_lossless.
 
@@ -353,6 +364,275 @@ Theorem C20_no_duplicate_delivery_with_want_filter :
     (cnt D c (client_run D digest want ops) <= memn c want + req_count D c ops)%nat.
 Proof. exact client_no_duplicates. Qed.
 Print Assumptions C20_no_duplicate_delivery_with_want_filter.
+
+(* ---------------- requests: one message, whatever its size ---------------- *)
+
+(* send_request builds ONE message carrying all wants (C20_request_roundtrip: what the remote's
+   user is told is the request) *)
+Theorem C20_request_single_message :
+  forall mb mm cids,
+    action_msgs mb mm (ARequest cids) = [ORequest cids] /\ omsg_len (ORequest cids) = request_len cids.
+Proof. exact request_single_message. Qed.
+Print Assumptions C20_request_single_message.
+
+(* an empty request is still a message: an empty wantlist, two bytes *)
+Theorem C20_request_empty_is_one_message :
+  forall mb mm, action_msgs mb mm (ARequest []) = [ORequest []] /\ request_len [] = 2.
+Proof. exact (fun mb mm => conj eq_refl request_empty_len). Qed.
+Print Assumptions C20_request_empty_is_one_message.
+
+(* with the shipped limit a request of up to 32 000 wants (multihashes of at most 64 bytes) is
+   within the limit and goes out whole over a substream that takes it *)
+Theorem C20_default_request_fits :
+  forall cids, Forall (fun cw => (length (c_digest (fst cw)) <= 64)%nat) cids ->
+    N.of_nat (length cids) <= 32000 -> request_len cids <= Consts.BITSWAP_MAX_MESSAGE_SIZE.
+Proof. exact default_request_fits. Qed.
+Print Assumptions C20_default_request_fits.
+
+Theorem C20_request_written_healthy :
+  forall mb mm cids, request_len cids <= mm ->
+    write_msgs mm None (action_msgs mb mm (ARequest cids)) = ([ORequest cids], 0, None, true).
+Proof. exact request_written_healthy. Qed.
+Print Assumptions C20_request_written_healthy.
+
+(* OBSERVATION, outside the property text (which speaks of responses): requests are not split.  For
+   every limit there is a request, each want of which would fit a message, whose one message is too
+   long ... *)
+Theorem C20_unsplit_request_insufficient :
+  forall mm, 53 <= mm ->
+    exists cids : list (cid * want_type),
+      Forall (fun cw => req_mlen (sw_elen cw) <= mm) cids /\ mm < request_len cids.
+Proof. exact unsplit_request_insufficient. Qed.
+Print Assumptions C20_unsplit_request_insufficient.
+
+(* ... the codec refuses it: send_request writes nothing and fails, on any substream ... *)
+Theorem C20_oversized_request_refused :
+  forall mb mm cids c, mm < request_len cids ->
+    write_msgs mm c (action_msgs mb mm (ARequest cids)) = ([], 0, c, false).
+Proof. exact oversized_request_refused. Qed.
+Print Assumptions C20_oversized_request_refused.
+
+(* ... and the loop then does this: an established substream is dropped and a new one requested,
+   the commands given meanwhile queue up behind the request, on the new substream the request is
+   refused again and the substream is dropped together with the whole queue — nothing is written,
+   nothing is reported, the peer's state is as before without the substream *)
+Theorem C20_oversized_request_drops_queue :
+  forall (D : Type) (digest : N -> D -> option (list N)) mb mm s c2 cids acts, mm < request_len cids ->
+    ps_pend s = [] -> ps_opening s = false -> ps_conn s = 1 ->
+    run_peer D digest mb mm s (PSend (ARequest cids) :: map PSend acts ++ [POutOpen c2]) =
+    (set_out s None, [], []).
+Proof. exact oversized_request_drops_queue. Qed.
+Print Assumptions C20_oversized_request_drops_queue.
+
+(* a queue flushed to a fresh substream stops at an oversized request: what stands before it is
+   written, the request and everything behind it is not *)
+Theorem C20_flush_stops_at_oversized_request :
+  forall mb mm c pre cids rest, Forall (action_ok mm) pre -> mm < request_len cids ->
+    write_actions mb mm None (pre ++ ARequest cids :: rest) =
+    (flat_map (action_msgs mb mm) pre, 0, None, false) /\
+    (pre = [] -> write_actions mb mm c (ARequest cids :: rest) = ([], 0, c, false)).
+Proof. exact write_actions_oversized. Qed.
+Print Assumptions C20_flush_stops_at_oversized_request.
+
+(* the commands the codec never refuses: every response (batching), a request within the limit *)
+Theorem C20_action_within_codec_limit :
+  forall mb mm a, action_ok mm a -> Forall (fun m => omsg_len m <= mm) (action_msgs mb mm a).
+Proof. exact action_msgs_within_limit. Qed.
+Print Assumptions C20_action_within_codec_limit.
+
+(* ---------------- bytes on the wire ---------------- *)
+
+(* The sizes that the batching counts (encoded_want_size, encoded_presence_size,
+   encoded_block_size, the empty wantlist, the wantlist wrapper) are the lengths of the byte
+   strings the generic protobuf encoder produces for the three messages — as long as sizes fit
+   64 bits (the `no usize overflow` assumption, here explicit). *)
+Theorem C20_request_bytes_length :
+  forall cids, request_len cids < 2 ^ 64 -> Protobuf.blen (request_bytes cids) = request_len cids.
+Proof. exact request_bytes_length. Qed.
+Print Assumptions C20_request_bytes_length.
+
+Theorem C20_presences_bytes_length :
+  forall l, message_len spres sp_elen blk_mlen l < 2 ^ 64 ->
+    Protobuf.blen (presences_bytes l) = message_len spres sp_elen blk_mlen l.
+Proof. exact presences_bytes_length. Qed.
+Print Assumptions C20_presences_bytes_length.
+
+Theorem C20_blocks_bytes_length :
+  forall l, message_len cblock cb_elen blk_mlen l < 2 ^ 64 ->
+    Protobuf.blen (blocks_bytes l) = message_len cblock cb_elen blk_mlen l.
+Proof. exact blocks_bytes_length. Qed.
+Print Assumptions C20_blocks_bytes_length.
+
+(* so the bounds hold for the bytes: every blocks message of send_response is a byte string of at
+   most max_message_size bytes holding at most max_batch_size bytes of data, none is empty, and
+   together they carry exactly the blocks that fit, once and in order; likewise presences; a request
+   is one message that reaches the wire only when its bytes are within the limit *)
+Theorem C20_wire_blocks_bounded :
+  forall mb mm l, mm < 2 ^ 64 ->
+    Forall (fun batch => batch <> [] /\ sum (map cb_dlen batch) <= mb /\ Protobuf.blen (blocks_bytes batch) <= mm)
+           (send_response_cblocks mb mm l) /\
+    concat (send_response_cblocks mb mm l) = filter (fits cblock cb_dlen cb_elen blk_mlen mb mm) l.
+Proof. exact wire_blocks_bounded. Qed.
+Print Assumptions C20_wire_blocks_bounded.
+
+Theorem C20_wire_presences_bounded :
+  forall mm l, mm < 2 ^ 64 ->
+    Forall (fun batch => batch <> [] /\ Protobuf.blen (presences_bytes batch) <= mm) (send_response_presences mm l).
+Proof. exact wire_presences_bounded. Qed.
+Print Assumptions C20_wire_presences_bounded.
+
+Theorem C20_wire_request_written_bounded :
+  forall mm c cids done part c' ok, mm < 2 ^ 64 ->
+    write_msgs mm c [ORequest cids] = (done, part, c', ok) ->
+    done = [] \/ (done = [ORequest cids] /\ Protobuf.blen (request_bytes cids) <= mm).
+Proof. exact wire_request_written_bounded. Qed.
+Print Assumptions C20_wire_request_written_bounded.
+
+(* what send_request writes parses back (prost's generic field parser) to the fields it was built from *)
+Theorem C20_request_bytes_parse :
+  forall cids, request_len cids < 2 ^ 64 ->
+    Protobuf.pb_parse (request_bytes cids) = Protobuf.Ok (request_fields cids).
+Proof. exact request_bytes_parse. Qed.
+Print Assumptions C20_request_bytes_parse.
+
+(* ---------------- the event loop: queues, connections, dials ---------------- *)
+
+(* BitswapEvents come from complete inbound frames on an open inbound substream and from nothing
+   else: no command, write failure, timeout, dial result or connection event is reported *)
+Theorem C20_events_only_from_frames :
+  forall (D : Type) (digest : N -> D -> option (list N)) mb mm s e s' evs w,
+    peer_step D digest mb mm s e = (s', (evs, w)) -> evs <> [] ->
+    exists m, e = PInFrame m /\ ps_inb s = true /\ evs = msg_events D digest m /\ s' = s.
+Proof. exact events_only_from_frames. Qed.
+Print Assumptions C20_events_only_from_frames.
+
+(* whatever the loop writes, in any state, is within the limit: responses by batching, a request
+   because the codec refuses a longer one before anything is written *)
+Theorem C20_written_within_limit :
+  forall (D : Type) (digest : N -> D -> option (list N)) mb mm s e s' evs done part,
+    peer_step D digest mb mm s e = (s', (evs, (done, part))) ->
+    Forall (fun m => omsg_len m <= mm) done.
+Proof. exact written_within_limit. Qed.
+Print Assumptions C20_written_within_limit.
+
+Theorem C20_writes_only_on_send_or_open :
+  forall (D : Type) (digest : N -> D -> option (list N)) mb mm s e s' evs done part,
+    peer_step D digest mb mm s e = (s', (evs, (done, part))) ->
+    (done <> [] \/ part <> 0) -> (exists a, e = PSend a) \/ (exists c, e = POutOpen c).
+Proof. exact writes_only_on_send_or_open. Qed.
+Print Assumptions C20_writes_only_on_send_or_open.
+
+(* For every history of a peer (commands, substreams opening, failing, stalling, the connection
+   closing, dying, coming back, dials accepted, refused, failing): queued actions wait for exactly
+   one thing the service will answer, a peer without connection has no substreams, a parked dial
+   is for a peer without usable connection. *)
+Theorem C20_queue_invariant :
+  forall (D : Type) (digest : N -> D -> option (list N)) mb mm es,
+    ps_inv (fst (fst (run_peer D digest mb mm ps_init es))).
+Proof. exact (fun D digest mb mm es => run_peer_inv D digest mb mm es ps_init (ps_inv_init D digest mb mm)). Qed.
+Print Assumptions C20_queue_invariant.
+
+Theorem C20_no_stuck_queue :
+  forall (D : Type) (digest : N -> D -> option (list N)) mb mm es,
+    let s := fst (fst (run_peer D digest mb mm ps_init es)) in
+    ps_pend s <> [] -> ps_opening s = true \/ ps_dial s = true.
+Proof. exact no_stuck_queue. Qed.
+Print Assumptions C20_no_stuck_queue.
+
+(* ... and every answer of the service empties the queue or moves it on *)
+Theorem C20_answers_resolve :
+  forall (D : Type) (digest : N -> D -> option (list N)) mb mm s, ps_inv s ->
+    (ps_opening s = true ->
+       (forall c, ps_pend (fst (peer_step D digest mb mm s (POutOpen c))) = [] /\
+                  ps_opening (fst (peer_step D digest mb mm s (POutOpen c))) = false) /\
+       ps_pend (fst (peer_step D digest mb mm s POutFail)) = [] /\
+       ps_opening (fst (peer_step D digest mb mm s POutFail)) = false) /\
+    (ps_dial s = true ->
+       ps_pend (fst (peer_step D digest mb mm s PDialFail)) = [] /\
+       ps_dial (fst (peer_step D digest mb mm s PDialFail)) = false /\
+       (ps_conn s = 0 -> ps_opening (fst (peer_step D digest mb mm s PConnect)) = true /\
+                         ps_pend (fst (peer_step D digest mb mm s PConnect)) = ps_pend s)) /\
+    (ps_conn s <> 0 -> ps_pend (fst (peer_step D digest mb mm s PConnClose)) = []).
+Proof. exact answers_resolve. Qed.
+Print Assumptions C20_answers_resolve.
+
+(* send_request / send_response to a peer that is gone and cannot be dialled: dropped on the
+   spot — nothing written, nothing queued, nothing reported to the user *)
+Theorem C20_send_to_gone_peer_dropped :
+  forall (D : Type) (digest : N -> D -> option (list N)) mb mm s a,
+    ps_inv s -> ps_conn s <> 1 -> ps_pend s = [] -> (ps_mgr s = 0 \/ ps_mgr s = 2) -> ps_out s = None ->
+    peer_step D digest mb mm s (PSend a) = (s, ([], ([], 0))).
+Proof. exact send_to_gone_peer_dropped. Qed.
+Print Assumptions C20_send_to_gone_peer_dropped.
+
+(* ... to a peer that can be dialled: parked; once the connection is reported and the substream
+   opens, every parked command (none of them an oversized request) is written, completely and in
+   order *)
+Theorem C20_send_to_dialable_peer_parked :
+  forall (D : Type) (digest : N -> D -> option (list N)) mb mm s acts, Forall (action_ok mm) acts ->
+    ps_conn s = 0 -> ps_pend s = [] -> ps_out s = None -> ps_dial s = false -> ps_opening s = false ->
+    (ps_mgr s = 1 \/ ps_mgr s = 3) -> acts <> [] ->
+    let '(s1, _, done) := run_peer D digest mb mm s (map PSend acts ++ [PConnect; POutOpen None]) in
+    done = flat_map (action_msgs mb mm) acts /\ ps_pend s1 = [] /\ ps_out s1 = Some None.
+Proof. exact send_to_dialable_peer_parked. Qed.
+Print Assumptions C20_send_to_dialable_peer_parked.
+
+Theorem C20_dial_failure_drops_parked :
+  forall (D : Type) (digest : N -> D -> option (list N)) mb mm s, ps_dial s = true ->
+    peer_step D digest mb mm s PDialFail = (set_pend (set_dial s false) [], ([], ([], 0))).
+Proof. exact dial_failure_drops_parked. Qed.
+Print Assumptions C20_dial_failure_drops_parked.
+
+(* a command whose write fails half-way is queued again whole: what had been written is written
+   again on the next substream (delivery to the remote is at-least-once, not exactly-once) *)
+Theorem C20_failed_send_retried_whole :
+  forall (D : Type) (digest : N -> D -> option (list N)) mb mm s c a done part c', action_ok mm a ->
+    ps_out s = Some c -> ps_pend s = [] -> ps_conn s = 1 ->
+    write_msgs mm c (action_msgs mb mm a) = (done, part, c', false) ->
+    let '(s1, _, written) := run_peer D digest mb mm s [PSend a; POutOpen None] in
+    written = done ++ action_msgs mb mm a /\ ps_out s1 = Some None /\ ps_pend s1 = [].
+Proof. exact failed_send_retried_whole. Qed.
+Print Assumptions C20_failed_send_retried_whole.
+
+(* the node: an operation about one peer leaves the loop's state for every other peer untouched *)
+Theorem C20_node_peers_independent :
+  forall (D : Type) (digest : N -> D -> option (list N)) mb mm st p e q, q <> p ->
+    get_ps (fst (node_step D digest mb mm st (p, e))) q = get_ps st q.
+Proof. exact node_step_frame. Qed.
+Print Assumptions C20_node_peers_independent.
+
+(* Whatever happens at the node — any number of peers, connections coming and going, commands,
+   failures, frames in any order: every block reported to the user hashes to its CID, and every
+   message written is within the limit. *)
+Theorem C20_node_blocks_certified :
+  forall (D : Type) (digest : N -> D -> option (list N)) mb mm ops st p ev c d,
+    In (p, ev) (snd (fst (run_node_ops D digest mb mm st ops))) -> In (c, d) (event_blocks D ev) ->
+    digest (c_code c) d = Some (c_digest c) /\ cid_valid c /\ (length (c_digest c) <= 64)%nat.
+Proof. exact node_blocks_certified. Qed.
+Print Assumptions C20_node_blocks_certified.
+
+Theorem C20_node_written_within_limit :
+  forall (D : Type) (digest : N -> D -> option (list N)) mb mm ops st,
+    Forall (fun pm => omsg_len (snd pm) <= mm) (snd (run_node_ops D digest mb mm st ops)).
+Proof. exact run_node_written_within_limit. Qed.
+Print Assumptions C20_node_written_within_limit.
+
+(* nothing is invented and nothing leaks between peers: every message written to a peer's
+   substream, in any history of the node, is a message of a command the user gave for that peer *)
+Theorem C20_written_only_commanded :
+  forall (D : Type) (digest : N -> D -> option (list N)) mb mm es m,
+    In m (snd (run_peer D digest mb mm ps_init es)) ->
+    exists a, In (PSend a) es /\ In m (action_msgs mb mm a).
+Proof. exact written_only_commanded. Qed.
+Print Assumptions C20_written_only_commanded.
+
+Theorem C20_node_written_only_commanded :
+  forall (D : Type) (digest : N -> D -> option (list N)) mb mm ops st,
+    (forall q, ps_pend (get_ps st q) = []) ->
+    forall p m, In (p, m) (snd (run_node_ops D digest mb mm st ops)) ->
+      exists a, In (p, PSend a) ops /\ In m (action_msgs mb mm a).
+Proof. exact node_written_only_commanded. Qed.
+Print Assumptions C20_node_written_only_commanded.
 
 (* non-vacuity *)
 Example C20_nonvacuous_batching :
